@@ -31,8 +31,8 @@ var (
 	profC05 = storeProfile{name: "c05", minRounds: 3, maxRounds: 6, maxTxns: 3, pDel: 45, pPrune: 60, pCrashSave: 10, pRecreate: 50, pObserve: 25, pFork: 25, pBump: 8, pSync: 6, pSaveFault: 3}
 )
 
-// genSaveFail switches the generation of `save-fail` ops on (see round()).
-const genSaveFail = false
+// genSaveFail switches the generation of `save-fail` ops on (see round()); on since fix 2aff805.
+const genSaveFail = true
 
 type gTrie struct {
 	id, parent int
@@ -41,19 +41,20 @@ type gTrie struct {
 }
 
 type storeGen struct {
-	r            *rand.Rand
-	prof         storeProfile
-	ops          []string
-	keys         []string
-	tries        map[int]*gTrie
-	nextID       int
-	version      int
-	saved        []int // versions of the saved rounds
-	savedMap     map[string]string
-	savedMaps    []map[string]string // content of every saved round (parallel to saved)
-	superseded   []bool
-	usedVersions map[int]bool
-	pruned       int
+	r                *rand.Rand
+	prof             storeProfile
+	ops              []string
+	keys             []string
+	tries            map[int]*gTrie
+	nextID           int
+	version          int
+	saved            []int // versions of the saved rounds
+	savedMap         map[string]string
+	savedMaps        []map[string]string // content of every saved round (parallel to saved)
+	superseded       []bool
+	usedVersions     map[int]bool
+	saveFailAttempts int
+	pruned           int
 }
 
 var prefixCuts = []int{0, 1, 2, 3, 5, 8, 16, 31, 32, 61, 62, 63}
@@ -427,11 +428,9 @@ func (g *storeGen) round(fork bool) {
 	g.maybeObserve(0)
 	if g.r.Intn(100) < g.prof.pSaveFault {
 		// fault paths of SaveChanges: a failing batch write, a save that times out while its batch is stalled
-		// (`save-fail` — a failing batch write must be reported every time — is implemented but not generated while the
-		// errC/doneC select race of SaveChanges is an undecided finding candidate: set genSaveFail to switch it on)
 		switch x := g.r.Intn(3); {
 		case x == 0 && genSaveFail:
-			g.emit("save-fail")
+			g.emit("save-fail %d", g.saveFailAttempts)
 		case x == 1:
 			g.emit("save-timeout a")
 		default:
@@ -491,7 +490,10 @@ func (g *storeGen) round(fork bool) {
 
 func genStoreCase(prof storeProfile) func(r *rand.Rand, tier string, idx int) []string {
 	return func(r *rand.Rand, tier string, idx int) []string {
-		g := &storeGen{r: r, prof: prof, keys: genKeyUniverse(r), version: r.Intn(4), savedMap: map[string]string{}, usedVersions: map[int]bool{}}
+		g := &storeGen{r: r, prof: prof, keys: genKeyUniverse(r), version: r.Intn(4), savedMap: map[string]string{}, usedVersions: map[int]bool{}, saveFailAttempts: 60}
+		if tier == "thorough" {
+			g.saveFailAttempts = 400
+		}
 		rounds := prof.minRounds + r.Intn(prof.maxRounds-prof.minRounds+1)
 		if tier == "thorough" && r.Intn(4) == 0 {
 			rounds += 1 + r.Intn(4)
